@@ -35,7 +35,11 @@ TWO_GROUPS = dict(nd=3, groups=[{'A': [0, 1, 2], 'B': [0, 2, 1]}, {'C': [0, 2, 1
 # the less distributed group listed FIRST (the constructor sizes its buffer in a different branch for this order)
 REV3 = dict(nd=3, groups=[{'G': [0, 1, 2]}, {'S': [0, 1, 2]}], procs=lambda p0, p1: [p0, [p0, p1]], start='S')
 REV_TWO = dict(nd=3, groups=[{'C': [0, 2, 1]}, {'A': [0, 1, 2], 'B': [0, 2, 1]}], procs=lambda p0, p1: [p0, [p0, p1]], start='A')
-FAMILIES = dict(driver3=DRIVER3, driver4=DRIVER4, two=TWO_GROUPS, upstream4=UPSTREAM4, rev3=REV3, rev_two=REV_TWO)
+# a grouping whose layouts cannot be joined (the 1-D poloidal handler sits on the wrong grid direction): the constructor must
+# refuse it; if it is accepted, the property applies to it like to any accepted grouping
+UNCONN3 = dict(nd=3, groups=[{'v_parallel_2d': [0, 2, 1], 'mode_solve': [1, 2, 0]}, {'poloidal': [2, 1, 0]}],
+               procs=lambda p0, p1: [[p0, p1], p0], start='mode_solve')
+FAMILIES = dict(driver3=DRIVER3, driver4=DRIVER4, two=TWO_GROUPS, upstream4=UPSTREAM4, rev3=REV3, rev_two=REV_TWO, unconn3=UNCONN3)
 
 
 def tag(cfg):
@@ -232,6 +236,8 @@ def configs(tier):
         add('rev3', (2, 2), 'S', 'G', False, 3)
         add('rev3', (2, 2), 'G', 'S', True, 3)
         add('rev_two', (2, 2), 'B', 'C', False, 3)
+        add('unconn3', (2, 3), 'mode_solve', 'poloidal', False, 3)
+        add('unconn3', (2, 3), 'poloidal', 'v_parallel_2d', True, 3)
     else:
         for grid in [(1, 2), (2, 1), (2, 2), (1, 3), (3, 1), (2, 3), (3, 2), (3, 3)]:
             for a, b in itertools.permutations(names3, 2):
@@ -249,6 +255,9 @@ def configs(tier):
                 for buf in (False, True):
                     add('two', grid, a, b, buf, 3)
                     add('rev_two', grid, a, b, buf, 3)
+        for grid in [(2, 3), (3, 2)]:
+            for a, b in itertools.permutations(['mode_solve', 'poloidal', 'v_parallel_2d'], 2):
+                add('unconn3', grid, a, b, grid == (2, 3), 3)
         for grid in [(2, 2), (2, 3), (3, 2), (1, 2), (2, 1)]:
             for a, b in (('S', 'G'), ('G', 'S')):
                 for buf in (False, True):
@@ -301,6 +310,10 @@ def main():
             caught[r['canary']] = caught.get(r['canary'], False) or bool(r['violations'])
             continue
         run.merge(r)
+        for t_ in r.get('rejected', []):
+            run.sections.setdefault('groupings_refused_by_the_constructor', [])
+            if t_ not in run.sections['groupings_refused_by_the_constructor']:
+                run.sections['groupings_refused_by_the_constructor'].append(t_)
         walls.append((r.get('wall', 0), r.get('cfg')))
     walls.sort(reverse=True)
     run.sections['slowest_paths'] = walls[:5]
